@@ -7,6 +7,7 @@ package kv_test
 
 import (
 	"context"
+	"fmt"
 	"sort"
 	"time"
 
@@ -63,6 +64,7 @@ func init() {
 	}
 }
 
+// kvAnys: the variadic argument list of a step in the call form s.V (see kvStep.V).
 func kvAnys(s kvStep) []any {
 	out := make([]any, 0, len(s.S)+len(s.I))
 	for _, x := range s.S {
@@ -70,6 +72,20 @@ func kvAnys(s kvStep) []any {
 	}
 	for _, x := range s.I {
 		out = append(out, x)
+	}
+	switch s.V {
+	case 1:
+		strs := make([]string, len(out))
+		for i, x := range out {
+			strs[i] = fmt.Sprint(x)
+		}
+		return []any{strs}
+	case 2:
+		return []any{out}
+	case 3:
+		return []any{[]any{out}}
+	case 4:
+		return nil
 	}
 	return out
 }
@@ -318,14 +334,14 @@ func kvRegStrings() {
 			return s
 		},
 		func(st kv.Store, ctx context.Context, s kvStep) (any, error) {
-			args := kvAnys(kvStep{S: s.S, I: s.I[1:]})
+			args := kvAnys(kvStep{S: s.S, I: s.I[1:], V: s.V})
 			if s.X {
 				return st.EvalCtx(ctx, kvScripts[s.I[0]], s.K[0], args...)
 			}
 			return st.Eval(kvScripts[s.I[0]], s.K[0], args...)
 		},
 		func(c *red.Client, ctx context.Context, s kvStep) (any, error) {
-			return c.Eval(ctx, kvScripts[s.I[0]], []string{s.K[0]}, kvAnys(kvStep{S: s.S, I: s.I[1:]})...).Result()
+			return c.Eval(ctx, kvScripts[s.I[0]], []string{s.K[0]}, kvAnys(kvStep{S: s.S, I: s.I[1:], V: s.V})...).Result()
 		})
 
 	// ---- bits
